@@ -303,7 +303,8 @@ fn mode_b(rng: &mut Rng, arch: &Arch) -> Built {
         blocks.push(Block { instrs, term });
     }
     // the callee
-    let mut cb = groups(rng, arch, 1 + rng.below(2), &mut feats);
+    let ncb = 1 + rng.below(2);
+    let mut cb = groups(rng, arch, ncb, &mut feats);
     let callee_returns = rng.chance(3, 4);
     if !callee_returns {
         feats.insert("callee_without_return".into());
@@ -421,13 +422,37 @@ fn gen_inits(rng: &mut Rng, arch: &Arch, n: usize) -> Value {
 // ------------------------------------------------------------------------------------------------
 // the real pipeline
 // ------------------------------------------------------------------------------------------------
+/// IR variables are identified by (name, size, is_temp) (`Variable` derives `Eq` over all fields; the lifter uses
+/// `$load_temp0` with another size in every block) while spec/IR.tla keys its register file by name: a temporary
+/// (name, size) is projected to the name `name:size`.  Physical registers keep their names - a register variable
+/// of another size than the base register is a different variable for the analyzer as well, and reads Poison.
+fn name_temps(v: &mut Value) {
+    match v {
+        Value::Object(m) => {
+            if m.len() == 3 && m.get("t") == Some(&json!(true)) && m.contains_key("n") && m.contains_key("s") {
+                let n = format!("{}:{}", m["n"].as_str().unwrap(), m["s"]);
+                m.insert("n".to_string(), json!(n));
+                return;
+            }
+            for x in m.values_mut() {
+                name_temps(x);
+            }
+        }
+        Value::Array(a) => a.iter_mut().for_each(name_temps),
+        _ => (),
+    }
+}
+
 fn sub_json(s: &ir::Term<ir::Sub>, ptr: usize) -> Value {
     let mut v = irenc::sub(s);
     if let Some(blocks) = v["blocks"].as_array_mut() {
         for (b, blk) in blocks.iter_mut().zip(s.term.blocks.iter()) {
-            b["abv"] = json!(penc::hex_le(&blk.tid.address, ptr));
+            // (artificial blocks have no address: the empty vector equals no pointer value)
+            let is_hex = !blk.tid.address.is_empty() && blk.tid.address.bytes().all(|c| c.is_ascii_hexdigit());
+            b["abv"] = if is_hex { json!(penc::hex_le(&blk.tid.address, ptr)) } else { json!([]) };
         }
     }
+    name_temps(&mut v);
     v
 }
 
